@@ -31,7 +31,23 @@ from mc.c06_gen import PRELUDE, SIG
 
 # --------------------------------------------------------------------------- multi-steal family
 
-MS_PRELUDE = PRELUDE + '''\
+def _without(text: str, names: list[str]) -> str:
+    """Drop top-level definitions (the generators that carry recorded findings are not needed here)."""
+    out = []
+    skip = False
+    for line in text.splitlines(keepends=True):
+        if line.startswith("def ") or line.startswith("class "):
+            skip = any(line.startswith(f"def {n}(") for n in names)
+        if not skip:
+            out.append(line)
+    return "".join(out)
+
+
+MS_PRELUDE = _without(PRELUDE, ["gen_temp", "gen_lit"]).replace("from typing import ", "from typing import Final, ") + '''\
+FX: Final = T('fx')
+GX = T('gx')
+
+
 class Pair:
     def __init__(self, p: object, q: object) -> None:
         self.p = p
@@ -59,6 +75,11 @@ PROVENANCE: dict[str, tuple[list[str], str, list[str]]] = {
     "big": (["x = k + 10 ** 20"], "x", []),
     "box": (["x = Box(a)"], "x", []),
     "str": (["x = str(k + 1000)"], "x", []),
+    "flt": (["x = k + 0.5"], "x", []),
+    "opt": (["x: Optional[Box] = None", "if k < 9:", "    x = Box(a)"], "x", []),
+    "final": ([], "FX", []),
+    "glob": ([], "GX", []),
+    # a value-type tuple is boxed anew for every slot (no identity: excluded from the result census)
     "rtup": (["x = (a, T('x'))"], "x", []),
 }
 Y_PROVENANCE: dict[str, tuple[list[str], str]] = {
@@ -73,12 +94,18 @@ SHAPES2 = ["xx", "xy", "yx"]
 SHAPES3 = ["xxx", "xxy", "xyx", "yxx", "xyy", "yxy", "yyx"]
 
 
-def _shape10(pos: tuple[int, ...]) -> str:
-    return "".join("x" if i in pos else "y" for i in range(10))
+def _shape_n(n: int, pos: tuple[int, ...]) -> str:
+    return "".join("x" if i in pos else "y" for i in range(n))
 
 
-SHAPES10 = [_shape10(p) for n in (1, 2, 3) for p in itertools.combinations((0, 4, 9), n)] + ["x" * 10, "xxxyxxxyxx"]
-SHAPES10_T = sorted(set(SHAPES10 + [_shape10(p) for n in (1, 2, 3, 4, 5) for p in itertools.combinations((0, 1, 4, 8, 9), n)]))
+def _long_shapes(n: int, thorough: bool) -> list[str]:
+    """x in every non-empty subset of {first, middle, last} (thorough: of {0, 1, middle, n-2, n-1}), all x, and the
+    dense shape x x x y x x x y x x ..."""
+    anchors = (0, 1, n // 2 - 1, n - 2, n - 1) if thorough else (0, n // 2 - 1, n - 1)
+    out = [_shape_n(n, p) for m in range(1, len(anchors) + 1) for p in itertools.combinations(anchors, m)]
+    out += ["x" * n, "".join("y" if i % 4 == 3 else "x" for i in range(n))]
+    seen: set[str] = set()
+    return [sh for sh in out if not (sh in seen or seen.add(sh))]  # type: ignore[func-returns-value]
 
 
 def _join(s: list[str]) -> str:
@@ -90,6 +117,9 @@ CONSTRUCTS: dict[str, tuple[int, object]] = {
     # CPyList_Build (one op stealing every argument) at and above the threshold of 10 leading items
     "list10": (10, lambda s: [f"res: object = [{_join(s)}]"]),
     "liststar": (10, lambda s: [f"res: object = [{_join(s)}, *xs]"]),
+    "list11": (11, lambda s: [f"res: object = [{_join(s)}]"]),
+    # just below the threshold
+    "list9": (9, lambda s: [f"res: object = [{_join(s)}]"]),
     # below the threshold: PyList_New + one stealing store per slot
     "list3": (3, lambda s: [f"res: object = [{_join(s)}]"]),
     "starlist": (3, lambda s: [f"res: object = [*xs, {_join(s)}]"]),
@@ -138,13 +168,13 @@ def _shapes(n: int, thorough: bool) -> list[str]:
         return SHAPES2
     if n == 3:
         return SHAPES3
-    return SHAPES10_T if thorough else SHAPES10
+    return _long_shapes(n, thorough)
 
 
 def ms_functions(thorough: bool = False) -> list[dict]:
     """The whole product as a list of {name, construct, prov, yprov, shape, source}; order = simplest first."""
     out = []
-    yprovs = list(Y_PROVENANCE) if thorough else ["dead"]
+    yprovs = list(Y_PROVENANCE) if thorough else ["dead", "arg"]
     for cname, (n, mk) in list(CONSTRUCTS.items()) + list(STR_ONLY.items()):
         for prov, (setup, xexpr, after) in PROVENANCE.items():
             if cname in STR_ONLY and prov not in ("str", "lit"):
@@ -159,28 +189,30 @@ def ms_functions(thorough: bool = False) -> list[dict]:
                     if "y" not in shape and yprov != "dead":
                         continue  # y unused: one representative
                     slots = [xexpr if c == "x" else yexpr for c in shape]
-                    name = f"ms_{cname}_{prov}_{yprov}_{shape if n < 10 else _enc10(shape)}"
+                    name = f"ms_{cname}_{prov}_{yprov}_{shape if n < 9 else _enc10(shape)}"
                     body = list(setup) + (list(ysetup) if "y" in shape else []) + mk(slots) + list(after)
                     body += ["raiser(k, a)", "return res"]
                     src = f"def {name}{SIG}:\n" + textwrap.indent("\n".join(body), "    ") + "\n"
                     out.append({"name": name, "construct": cname, "prov": prov, "yprov": yprov, "shape": shape,
-                                "nk": 2, "census": True, "source": src})
+                                "nk": 2, "census": prov != "rtup", "source": src})
     return out
 
 
 def _enc10(shape: str) -> str:
-    return "p" + "".join(str(i) for i, c in enumerate(shape) if c == "x")
+    return "p" + "".join("0123456789ab"[i] for i, c in enumerate(shape) if c == "x")
+
+
+def assemble(prelude: str, specs: list[dict]) -> str:
+    return prelude + "\n\n".join(f["source"] for f in specs) + "\n"
 
 
 def ms_modules(thorough: bool, n_modules: int) -> list[tuple[str, str, list[dict]]]:
-    """Round-robin the product over n modules (every module sees every construct)."""
+    """Round-robin the product over n modules (every module sees every construct): (module name, prelude, specs);
+    the module text is assemble(prelude, specs)."""
     fns = ms_functions(thorough)
     out = []
     for i in range(n_modules):
-        part = fns[i::n_modules]
-        src = MS_PRELUDE + "\n\n".join(f["source"] for f in part) + "\n"
-        specs = [{k: v for k, v in f.items() if k != "source"} for f in part]
-        out.append((f"c06ms{i}", src, specs))
+        out.append((f"c06ms{i}", MS_PRELUDE, fns[i::n_modules]))
     return out
 
 
@@ -226,10 +258,15 @@ NR_OUTER = ["none", "te", "tf", "with", "exb", "fib", "loop"]
 NR_INNER = ["te", "tf"]
 NR_WHERE = ["B", "P", "F", "L", "H"]   # before regions / outer body before inner try / first stmt of inner try (raising)
 #                                        / later stmt of inner try / only in the inner handler
-NR_READ = ["ih", "oh", "ai", "af"]     # inner handler|finally / innermost outer handler|finally / after the inner
+NR_READ1 = ["ih", "oh", "ai", "af"]    # inner handler|finally / innermost outer handler|finally / after the inner
 #                                        try inside the outer body / after everything
+# reader SETS: a function in which one read needs a definedness check and another is believed safe differs from one
+# with a single read (the register is initialised to the error value as soon as any read is checked)
+NR_READ = NR_READ1 + ["ih+af", "ih+oh", "ai+af"]
+NR_READ_T = ["+".join(c) for n in (1, 2, 3, 4) for c in itertools.combinations(NR_READ1, n)]
 NR_PRE = ["n", "c"]                    # no statement / a call statement of the outer region directly before the inner try
 NR_INPUTS = [0, 1, 2, 3]               # raise point: none / pre statement / first stmt of inner try / later stmt
+NR_INPUTS_LOOP = [0, 1, 2, 3, 4, 5, 6]  # loop bodies: the same raise points in the first (1..3) or second (4..6) iteration
 
 
 def _has_handler(o: str) -> bool:
@@ -239,7 +276,8 @@ def _has_handler(o: str) -> bool:
 def nr_function(typ: str, outers: tuple[str, ...], inner: str, where: str, read: str, pre: str) -> dict | None:
     val, mk = NR_TYPES[typ]
     innermost = outers[-1]
-    if read == "oh" and not _has_handler(innermost):
+    reads = set(read.split("+"))
+    if "oh" in reads and not _has_handler(innermost):
         return None
     name = f"nr_{typ}_{'+'.join(outers)}_{inner}_{where}_{read}_{pre}".replace("+", "X")
     L: list[str] = []
@@ -250,6 +288,11 @@ def nr_function(typ: str, outers: tuple[str, ...], inner: str, where: str, read:
 
     emit("res: object = None")
     emit("i = 0")
+    # raise flags are plain bool locals, so that a raising statement is ONE call in the basic block it starts
+    # (a condition computed in place would put branches in front of the call)
+    emit("c1 = p == 1")
+    emit("c2 = p == 2")
+    emit("c3 = p == 3")
     if where == "B":
         emit(f"x = {val}")
     closers: list[tuple[int, str]] = []
@@ -277,9 +320,13 @@ def nr_function(typ: str, outers: tuple[str, ...], inner: str, where: str, read:
         elif o == "loop":
             emit("for i in range(2):")
             ind += 1
+            # raise points 1..3 act in the first iteration, 4..6 in the second (after a complete first one)
+            emit("c1 = p == 1 + 3 * i")
+            emit("c2 = p == 2 + 3 * i")
+            emit("c3 = p == 3 + 3 * i")
         if not last and o != "none":
             emit("note(False)")
-    cond = lambda n: f"p == {n} and i == 0"  # noqa: E731
+    cond = lambda n: f"c{n}"  # noqa: E731
     if pre == "c":
         emit(f"note({cond(1)})")
     if where == "P":
@@ -294,12 +341,12 @@ def nr_function(typ: str, outers: tuple[str, ...], inner: str, where: str, read:
     n0 = len(L)
     if where == "H":
         emit(f"x = {val}")
-    if read == "ih":
+    if "ih" in reads:
         emit("res = x")
     if len(L) == n0:
         emit("note(False)")
     ind -= 1
-    if read == "ai":
+    if "ai" in reads:
         emit("res = x")
     # close the regions that have handlers, innermost first
     for depth in range(len(outers) - 1, -1, -1):
@@ -309,28 +356,29 @@ def nr_function(typ: str, outers: tuple[str, ...], inner: str, where: str, read:
             ind = base
             emit("except Err:" if o == "te" else "finally:")
             ind += 1
-            if read == "oh" and depth == len(outers) - 1:
+            if "oh" in reads and depth == len(outers) - 1:
                 emit("res = x")
             else:
                 emit("note(False)")
             ind -= 1
     ind = 1
-    if read == "af":
+    if "af" in reads:
         emit("res = x")
     emit("return res")
     src = f"def {name}(p: int, a: object, v: int, w: i64) -> object:\n" + "\n".join(L) + "\n"
     return {"name": name, "typ": typ, "outer": "+".join(outers), "inner": inner, "where": where, "read": read, "pre": pre,
-            "inputs": [[p] for p in NR_INPUTS], "mask": 0, "source": src}
+            "inputs": [[p] for p in (NR_INPUTS_LOOP if "loop" in outers else NR_INPUTS)], "mask": 0, "source": src}
 
 
-def nr_functions(types: list[str], depth3: bool = False) -> list[dict]:
+def nr_functions(types: list[str], thorough: bool = False) -> list[dict]:
     out = []
     for typ in types:
-        for o, inner, where, read, pre in itertools.product(NR_OUTER, NR_INNER, NR_WHERE, NR_READ, NR_PRE):
+        for o, inner, where, read, pre in itertools.product(NR_OUTER, NR_INNER, NR_WHERE, NR_READ_T if thorough else NR_READ,
+                                                            NR_PRE):
             f = nr_function(typ, (o,), inner, where, read, pre)
             if f:
                 out.append(f)
-    if depth3:
+    if thorough:  # depth 3
         real = [o for o in NR_OUTER if o != "none"]
         for o1, o2, inner, where, read in itertools.product(real, real, NR_INNER, NR_WHERE, NR_READ):
             f = nr_function("obj", (o1, o2), inner, where, read, "c")
@@ -339,12 +387,9 @@ def nr_functions(types: list[str], depth3: bool = False) -> list[dict]:
     return out
 
 
-def nr_modules(types: list[str], depth3: bool, n_modules: int) -> list[tuple[str, str, list[dict]]]:
-    fns = nr_functions(types, depth3)
+def nr_modules(types: list[str], thorough: bool, n_modules: int) -> list[tuple[str, str, list[dict]]]:
+    fns = nr_functions(types, thorough)
     out = []
     for i in range(n_modules):
-        part = fns[i::n_modules]
-        src = NR_PRELUDE + "\n\n".join(f["source"] for f in part) + "\n"
-        specs = [{k: v for k, v in f.items() if k != "source"} for f in part]
-        out.append((f"c06nr{i}", src, specs))
+        out.append((f"c06nr{i}", NR_PRELUDE, fns[i::n_modules]))
     return out
